@@ -14,7 +14,7 @@
 (* to the working directory, which is that same root.  The file system is a *)
 (* function from canonical paths (no ROOT, no "." / "..", no links) to       *)
 (* entries.                                                                 *)
-EXTENDS Naturals, Sequences, FiniteSets, TLC, SequencesExt
+EXTENDS Naturals, Sequences, FiniteSets, TLC, SequencesExt, FiniteSetsExt
 
 ROOT == "/"
 FUEL == 8          \* bound on symbolic links followed in one resolution
@@ -45,7 +45,9 @@ Link(target) ==
         [t |-> "link", tag |-> 0, code |-> FALSE, bytes |-> <<>>, eager |-> <<>>,
          lazy |-> <<>>, strict |-> FALSE, target |-> target]
 
-FnOf(S) == [p \in {x[1] : x \in S} |-> (CHOOSE x \in S : x[1] = p)[2]]
+(* explicit (not lazily evaluated) functions from sets of <<key, value>> pairs *)
+FnOf(S) == FoldSet(LAMBDA x, acc : (x[1] :> x[2]) @@ acc, <<>>, S)
+ConstFn(S, v) == FoldSet(LAMBDA x, acc : (x :> v) @@ acc, <<>>, S)
 CodeNodes(f) == {p \in DOMAIN f : f[p].t = "file" /\ f[p].code}
 
 -----------------------------------------------------------------------------
@@ -89,17 +91,17 @@ Candidates(dir, jp, sp) ==
   IF IsAbs(sp) THEN <<sp>>
   ELSE <<dir \o sp>> \o [i \in 1..Len(jp) |-> jp[Len(jp) + 1 - i] \o sp]
 
-Resolve(f, dir, jp, sp) ==
-  LET cs == Candidates(dir, jp, sp)
-      hit == {i \in 1..Len(cs) : Exists(f, cs[i])}
-      above == \E i \in 1..Len(cs) : Lookup(f, cs[i]).err = "ABOVE"
-  IN IF above THEN [ok |-> FALSE, why |-> "above", path |-> <<>>, node |-> <<>>, idx |-> 0]
-     ELSE IF hit = {} THEN [ok |-> FALSE, why |-> "notfound", path |-> <<>>, node |-> <<>>, idx |-> 0]
-     ELSE LET i == CHOOSE k \in hit : \A j \in hit : k <= j
-              n == Canon(f, cs[i])
-          IN IF f[n].t = "dir"
-             THEN [ok |-> FALSE, why |-> "isdir", path |-> cs[i], node |-> n, idx |-> i]
-             ELSE [ok |-> TRUE, why |-> "", path |-> cs[i], node |-> n, idx |-> i]
+RFail(why, p, n, i) == [ok |-> FALSE, why |-> why, path |-> p, node |-> n, idx |-> i]
+RECURSIVE FirstHit(_, _, _)
+FirstHit(f, cs, i) ==
+  IF i > Len(cs) THEN RFail("notfound", <<>>, <<>>, 0)
+  ELSE LET w == Lookup(f, cs[i]) IN
+       IF w.ok THEN IF f[w.node].t = "dir" THEN RFail("isdir", cs[i], w.node, i)
+                    ELSE [ok |-> TRUE, why |-> "", path |-> cs[i], node |-> w.node, idx |-> i]
+       ELSE IF w.err = "ABOVE" THEN RFail("above", <<>>, <<>>, 0)   \* left the modelled tree
+       ELSE FirstHit(f, cs, i + 1)
+
+Resolve(f, dir, jp, sp) == FirstHit(f, Candidates(dir, jp, sp), 1)
 
 -----------------------------------------------------------------------------
 (* UTF-8 (Unicode Standard, ch. 3).                                          *)
@@ -218,8 +220,8 @@ InitScenario(s) ==
   /\ fam = s.fam /\ fs = s.fs /\ jpaths = s.jp /\ mainPath = s.main
   /\ cache = (mainNode :> "eval")
   /\ thisFile = (mainNode :> s.main)
-  /\ loads = [p \in CodeNodes(s.fs) |-> IF p = mainNode THEN 1 ELSE 0]
-  /\ res = [p \in CodeNodes(s.fs) |-> <<>>]
+  /\ loads = (mainNode :> 1) @@ ConstFn(CodeNodes(s.fs), 0)
+  /\ res = ConstFn(CodeNodes(s.fs), <<>>)
   /\ stack = <<TopFrame, LFrame(mainNode)>>
   /\ status = "run" /\ err = NoErr /\ hist = {} /\ hits = 0
 
@@ -258,68 +260,67 @@ FinishManifest ==
 
 (* --- one import expression ------------------------------------------------ *)
 Pending == Running /\ Top.k = "W" /\ ~Top.have
-Res == Resolve(fs, Top.dir, jpaths, Top.sp)
 Note(r) == hist' = hist \cup {[dir |-> Top.dir, sp |-> Top.sp, ok |-> r.ok, why |-> r.why,
                                path |-> r.path, node |-> r.node, idx |-> r.idx]}
 Site(class) == [class |-> class, file |-> Top.file, slot |-> Top.pc, sp |-> Top.sp]
 
-ImportFail ==         \* missing file / not a readable file: error at the import site
-  /\ Pending /\ ~Res.ok
-  /\ Note(Res)
-  /\ status' = IF Res.why = "above" THEN "outside" ELSE "error"
-  /\ err' = Site(Res.why)
+ImportFail(r) ==      \* missing file / not a readable file: error at the import site
+  /\ ~r.ok
+  /\ status' = IF r.why = "above" THEN "outside" ELSE "error"
+  /\ err' = Site(r.why)
   /\ UNCHANGED <<scen, cache, loads, thisFile, res, stack, hits>>
 
 DeliverData(d) ==
   /\ stack' = ReplaceTop(Popped, [Below EXCEPT !.pc = @ + 1])
   /\ res' = IF Below.k = "M" THEN [res EXCEPT ![Below.file] = Append(@, d)] ELSE res
 
-ImportStr ==
-  /\ Pending /\ Res.ok /\ Top.kind = "str"
-  /\ Note(Res)
+ImportStr(r) ==       \* the text of the file
+  /\ r.ok /\ Top.kind = "str"
   /\ IF Top.left = 0
-       THEN DeliverData(ImportStrOf(fs, Res.node)) /\ UNCHANGED <<status, err>>
+       THEN DeliverData(ImportStrOf(fs, r.node)) /\ UNCHANGED <<status, err>>
        ELSE status' = "outside" /\ err' = Site("type") /\ UNCHANGED <<stack, res>>
   /\ UNCHANGED <<scen, cache, loads, thisFile, hits>>
 
-ImportBin ==
-  /\ Pending /\ Res.ok /\ Top.kind = "bin"
-  /\ Note(Res)
+ImportBin(r) ==       \* the bytes of the file
+  /\ r.ok /\ Top.kind = "bin"
   /\ IF Top.left = 0
-       THEN DeliverData(ImportBinOf(fs, Res.node)) /\ UNCHANGED <<status, err>>
+       THEN DeliverData(ImportBinOf(fs, r.node)) /\ UNCHANGED <<status, err>>
        ELSE status' = "outside" /\ err' = Site("type") /\ UNCHANGED <<stack, res>>
   /\ UNCHANGED <<scen, cache, loads, thisFile, hits>>
 
-ImportNotCode ==      \* evaluating a data file as a program: not decided here
-  /\ Pending /\ Res.ok /\ Top.kind = "import" /\ ~fs[Res.node].code
-  /\ Note(Res)
+ImportNotCode(r) ==   \* evaluating a data file as a program: not decided here
+  /\ r.ok /\ Top.kind = "import" /\ ~fs[r.node].code
   /\ status' = "outside" /\ err' = Site("notcode")
   /\ UNCHANGED <<scen, cache, loads, thisFile, res, stack, hits>>
 
-ImportLoad ==         \* first time this file (by identity, not by spelling) is imported
-  /\ Pending /\ Res.ok /\ Top.kind = "import" /\ fs[Res.node].code
-  /\ Res.node \notin DOMAIN cache
-  /\ Note(Res)
-  /\ cache' = cache @@ (Res.node :> "eval")
-  /\ thisFile' = thisFile @@ (Res.node :> Res.path)
-  /\ loads' = [loads EXCEPT ![Res.node] = @ + 1]
-  /\ stack' = Append(stack, LFrame(Res.node))
+ImportLoad(r) ==      \* first time this file (by identity, not by spelling) is imported
+  /\ r.ok /\ Top.kind = "import" /\ fs[r.node].code
+  /\ r.node \notin DOMAIN cache
+  /\ cache' = cache @@ (r.node :> "eval")
+  /\ thisFile' = thisFile @@ (r.node :> r.path)
+  /\ loads' = [loads EXCEPT ![r.node] = @ + 1]
+  /\ stack' = Append(stack, LFrame(r.node))
   /\ UNCHANGED <<scen, res, status, err, hits>>
 
-ImportHit ==          \* any later import of it, by any spelling: the same value
-  /\ Pending /\ Res.ok /\ Top.kind = "import" /\ fs[Res.node].code
-  /\ Res.node \in DOMAIN cache /\ cache[Res.node] = "done"
-  /\ Note(Res)
-  /\ stack' = ReplaceTop(stack, [Top EXCEPT !.cur = Res.node, !.have = TRUE])
+ImportHit(r) ==       \* any later import of it, by any spelling: the same value
+  /\ r.ok /\ Top.kind = "import" /\ fs[r.node].code
+  /\ r.node \in DOMAIN cache /\ cache[r.node] = "done"
+  /\ stack' = ReplaceTop(stack, [Top EXCEPT !.cur = r.node, !.have = TRUE])
   /\ hits' = hits + 1
   /\ UNCHANGED <<scen, cache, loads, thisFile, res, status, err>>
 
-ImportCycle ==        \* the value is needed to compute itself
-  /\ Pending /\ Res.ok /\ Top.kind = "import" /\ fs[Res.node].code
-  /\ Res.node \in DOMAIN cache /\ cache[Res.node] = "eval"
-  /\ Note(Res)
+ImportCycle(r) ==     \* the value is needed to compute itself
+  /\ r.ok /\ Top.kind = "import" /\ fs[r.node].code
+  /\ r.node \in DOMAIN cache /\ cache[r.node] = "eval"
   /\ status' = "error" /\ err' = Site("cycle")
   /\ UNCHANGED <<scen, cache, loads, thisFile, res, stack, hits>>
+
+Import ==             \* one import expression reaches the resolver
+  /\ Pending
+  /\ LET r == Resolve(fs, Top.dir, jpaths, Top.sp) IN
+       /\ Note(r)
+       /\ \/ ImportFail(r) \/ ImportStr(r) \/ ImportBin(r) \/ ImportNotCode(r)
+          \/ ImportLoad(r) \/ ImportHit(r) \/ ImportCycle(r)
 
 Have == Running /\ Top.k = "W" /\ Top.have
 
@@ -352,30 +353,21 @@ ManifestCycle ==      \* a value that contains itself has no finite manifestatio
   /\ UNCHANGED <<scen, cache, loads, thisFile, res, stack, hist, hits>>
 
 Step == \/ ForceStmt \/ FinishLoad \/ DemandStmt \/ FinishManifest
-        \/ ImportFail \/ ImportStr \/ ImportBin \/ ImportNotCode
-        \/ ImportLoad \/ ImportHit \/ ImportCycle
+        \/ Import
         \/ FollowLazy \/ DeliverForced \/ DeliverManifest \/ ManifestCycle
 
 -----------------------------------------------------------------------------
 (* Invariants                                                                *)
 LoadOnce == \A n \in DOMAIN loads : loads[n] <= 1
 
-CacheSound ==
+CacheDomains ==
   /\ DOMAIN cache = DOMAIN thisFile
   /\ DOMAIN cache \subseteq DOMAIN loads
   /\ \A n \in DOMAIN loads : loads[n] = IF n \in DOMAIN cache THEN 1 ELSE 0
-  /\ \A n \in DOMAIN cache : Exists(fs, thisFile[n]) /\ Canon(fs, thisFile[n]) = n
 
 EvalOnStack ==
   \A n \in DOMAIN cache :
      (cache[n] = "eval") <=> \E i \in 1..Len(stack) : stack[i].k = "L" /\ stack[i].file = n
-
-Functional ==   \* the answer to (importer directory, spelling) never depends on history
-  \A h1, h2 \in hist : (h1.dir = h2.dir /\ h1.sp = h2.sp) => h1 = h2
-
-SameFileSameNode ==   \* two successful resolutions of the same file give the same identity
-  \A h \in hist : h.ok => /\ Exists(fs, h.path) /\ Canon(fs, h.path) = h.node
-                          /\ fs[h.node].t = "file"
 
 Finished == status = "ok" => /\ \A n \in DOMAIN cache : cache[n] = "done"
                              /\ err = NoErr
@@ -387,22 +379,32 @@ ErrorSite ==
 
 StackBound == Len(stack) <= 40
 
-Inv == LoadOnce /\ CacheSound /\ EvalOnStack /\ Functional /\ SameFileSameNode
-       /\ Finished /\ ErrorSite /\ StackBound
+(* `hist` and `thisFile` only grow, so these are examined when the run ends  *)
+CachePaths ==   \* the recorded path of a cached file does lead to that file
+  \A n \in DOMAIN cache : LET w == Lookup(fs, thisFile[n]) IN w.ok /\ w.node = n
+
+Functional ==   \* the answer to (importer directory, spelling) never depends on history
+  \A h1, h2 \in hist : (h1.dir = h2.dir /\ h1.sp = h2.sp) => h1 = h2
+
+SameFileSameNode ==   \* every successful resolution names an existing regular file by its identity
+  \A h \in hist : h.ok => LET w == Lookup(fs, h.path) IN w.ok /\ w.node = h.node /\ fs[h.node].t = "file"
+
+Inv == /\ LoadOnce /\ CacheDomains /\ EvalOnStack /\ Finished /\ ErrorSite /\ StackBound
+       /\ (status # "run") => (CachePaths /\ Functional /\ SameFileSameNode)
 
 (* Laws of Resolve on a file system f, for importer directories ds, -J      *)
-(* lists js and spellings sps.                                               *)
-LawResolve(f, ds, js, sps) ==
+(* lists js, additional -J directories ls and spellings sps.                 *)
+LawResolve(f, ds, js, ls, sps) ==
   \A sp \in sps :
     /\ IsAbs(sp) =>                     \* absolute paths bypass the search
-         \A d1, d2 \in ds : \A j1, j2 \in js : Resolve(f, d1, j1, sp) = Resolve(f, d2, j2, sp)
+         \A d \in ds : \A j \in js : Resolve(f, d, j, sp) = Resolve(f, <<>>, <<>>, sp)
     /\ ~IsAbs(sp) => \A d \in ds : \A j \in js :
          LET r == Resolve(f, d, j, sp) IN
          /\ Exists(f, d \o sp) => r.path = d \o sp /\ r.idx = 1      \* importer's directory first
          /\ (r.why = "notfound") <=> (~Exists(f, d \o sp) /\ \A i \in 1..Len(j) : ~Exists(f, j[i] \o sp))
-         /\ \A l \in {j2[1] : j2 \in js \ {<<>>}} :                    \* right-most -J wins
+         /\ \A l \in ls :                    \* right-most -J wins
               (~Exists(f, d \o sp) /\ Exists(f, l \o sp)) => Resolve(f, d, Append(j, l), sp).path = l \o sp
-         /\ \A l \in {j2[1] : j2 \in js \ {<<>>}} :                    \* an earlier -J only matters if nothing later has it
+         /\ \A l \in ls :                    \* an earlier -J only matters if nothing later has it
               (r.why # "notfound") => Resolve(f, d, <<l>> \o j, sp) = r
          /\ Resolve(f, d, j, <<".">> \o sp).node = r.node              \* "./x" is "x"
 =============================================================================
